@@ -14,11 +14,16 @@ CONSTANTS
   LhBases = 4
   LhPos <- LhPosQuick
   OffHi <- OffHiQuick
+  StreamLen = 3
+  StreamBases = 2
+  StreamPos <- StreamPosBoth
+  StreamOffHi <- StreamOffQuick
 INVARIANT Fp16OK
 INVARIANT QuatOK
 INVARIANT TrajOK
 INVARIANT RgbOK
 INVARIANT RangeOK
 INVARIANT LhOK
+INVARIANT KeptOK
 INVARIANT TypeOK
 CHECK_DEADLOCK FALSE
